@@ -77,6 +77,8 @@ func main() {
 		"a result that differs from the baseline under every delivery schedule it was run with is reported once with sched=* (the cause is then the consumption mode / buffer / handed-in bufio, not the schedule)",
 		"header long-line sweep: valid reference-written files with one unknown-type stanza whose opening line is 4000..70000 bytes (1, 3 or 7 arguments; first / after the match / last), 300-byte plaintext; sources: every schedule, caller-side bufio.Readers of 16..131072 bytes, *os.File, os.Pipe",
 		"header-size sweep: valid reference-written files with headers of round-d bytes (round = 4096*k, 64 KiB, 1 MiB; 16 MiB in thorough), one large unknown stanza or many ssh-ed25519-looking stanzas, 5000-byte plaintext behind it",
+		"CLI damaged-by-route stage: a 3-chunk LF-only text file damaged in its last chunk, ciphertext on a stdin pipe / a redirect / as INPUT, towards a pipe, a pty, -o - on a pty and -o FILE; every route is compared with pipe-to-pipe, retried once, and judged only if the same route delivers the valid file",
+		"CLI streaming stage: header + 2.5 chunks on a stdin pipe that stays open; 64 KiB must reach the pty within 40 s; a pipe destination is the control (expiry there makes the case inconclusive)",
 		"CLI output stage: printable LF-only UTF-8 texts through a pty (CR stripped), -o -, a pipe and -o FILE; a differing route is a violation only if the pipe route and the shifted control succeed, every run is retried once",
 		"optional interfaces (ByteReader, RuneReader, ByteScanner, WriterTo, ReaderAt, Seeker / StringWriter, ByteWriter, ReaderFrom) are discovered by type assertion on every returned value; one that is absent is recorded, not judged",
 		"consumer kinds over armor.NewReader (bufio ReadByte/ReadString/Peek/WriteTo/Read, Scanner, ReadFull blocks, 1-byte CopyBuffer, iotest.OneByteReader) run under the schedules whole, 1byte, random, bufio16over1byte",
@@ -157,6 +159,7 @@ func main() {
 	}
 	cliStage(r)
 	cliOutputStage(r)
+	cliDamagedAndStreamingStage(r)
 	r.Finish()
 }
 
